@@ -11,6 +11,9 @@ from astq import loc, show, strip_all, val, walk
 from core import AnalysisBroken
 from rules import a64hsem as T
 from rules.a64hsem import Lin, M64, add, sub, mul, neg, scale, xor, const, atom, hi
+import os as _os
+
+STRICT_FAMILY = bool(_os.environ.get('RXVERIF_STRICT_FAMILY'))
 
 D, S, IMM, SPAD = atom(('reg', 0)), atom(('reg', 1)), atom(('reg', 2)), atom(('spad',))
 
@@ -222,6 +225,9 @@ def T_and(x, mask):
 
 
 def rule_int_exec(ctx, R, F):
+    if STRICT_FAMILY:
+        R.note('rule_int_exec skipped: RXVERIF_STRICT_FAMILY=1 (emitted-code / executor evaluation on terms switched off, see DESIGN.md 9.2)')
+        return
     R.rule('INT-EXEC', 'each integer executor of the interpreter computes the term of specification 5.2 from the pointees of idst / isrc, the immediate, the shift and the mask of its bytecode: '
            'dst + (src << shift) + imm, dst - src, dst * src, the high halves of the unsigned / signed product, -dst, dst ^ src, rotations by src mod 64, the swap, the same with the 8 bytes at '
            'scratchpad + ((src + imm) & mask) for the memory forms, and the store of src at scratchpad + ((dst + imm) & mask); decided by symbolic evaluation of the executor bodies on terms', min_instances=17)
@@ -398,6 +404,9 @@ def fp_term_show(t):
 
 
 def rule_fp_exec(ctx, R, F, F_host=None):
+    if STRICT_FAMILY:
+        R.note('rule_fp_exec skipped: RXVERIF_STRICT_FAMILY=1 (emitted-code / executor evaluation on terms switched off, see DESIGN.md 9.2)')
+        return
     R.rule('FP-EXEC', 'each floating-point executor of the interpreter applies the operation of specification 5.3 to the right operands: swap, dst + src, dst - src, dst xor 0x80F0000000000000, dst * src, sqrt(dst), with '
            'the 8 scratchpad bytes at scratchpad + ((src + imm) & mask) converted from two signed 32-bit integers for the memory forms, and for FDIV_M the divisor (cvt & mantissa mask) | exponent mask of the program; '
            'decided by symbolic evaluation of the executor bodies over uninterpreted vector operations (commutative ones compared as sets)', min_instances=9)
